@@ -143,7 +143,13 @@ def unit_concrete(ctx):
         per = {g: {m: eng.getattr(eng.call(eng.getattr(st, "get_summary"), [g, m], {}), "avg") for m in METRICS} for g in GROUPS}
         ac = {m: {k: eng.getattr(across[m], k) for k in ("avg", "std", "min", "max")} for m in METRICS}
         allv = eng.call(eng.getattr(st, "get_across_groups"), ["m1"], {})
-        return one, ac, per, allv
+        sd = eng.call(eng.getattr(st, "get_summary_dict"), [], {})
+        sd0 = eng.call(eng.getattr(st, "get_summary_dict"), [], {"include_across_group": False})
+        sdv = {"keys": list(sd.keys()), "keys0": list(sd0.keys()),
+               "per": {g: {m: {k: eng.getattr(sd[g][m], k) for k in ("avg", "std", "min", "max")} for m in METRICS} for g in GROUPS if g in sd},
+               "ref": {g: {m: (lambda so: {k: eng.getattr(so, k) for k in ("avg", "std", "min", "max")})(eng.call(eng.getattr(st, "get_summary"), [g, m], {})) for m in METRICS} for g in GROUPS},
+               "across": {m: {k: eng.getattr(sd["across_groups"][m], k) for k in ("avg", "std", "min", "max")} for m in METRICS} if "across_groups" in sd else None}
+        return one, ac, per, allv, sdv
     paths = eng.run(target, mk)
     ctx.expect("concrete table: all missing-value patterns explored", len(paths) >= 8)
     T = lambda x: to_term(x, "real")
@@ -152,8 +158,21 @@ def unit_concrete(ctx):
         if p.kind != "return":
             ctx.oblige(f"{nm}/no-exception({p.exc.name()})#p{pi}", p.pc, z3.BoolVal(False), func=PS + "Panoptica_Statistic.get_summary_across_groups", replay="c20.e2e")
             continue
-        one, ac, per, allv = p.value
+        one, ac, per, allv, sdv = p.value
         isn, va = p.state["isnone"], p.state["val"]
+        # summary dict: one entry per group and metric equal to get_summary(group, metric), plus the across-groups summary on request
+        shape = sorted(sdv["keys"]) == sorted(GROUPS + ["across_groups"]) and sorted(sdv["keys0"]) == sorted(GROUPS) and sdv["across"] is not None \
+            and all(g in sdv["per"] for g in GROUPS)
+        gsd = [z3.BoolVal(bool(shape))]
+        if shape:
+            Tq = lambda x: to_term(x, "real")
+            for g in GROUPS:
+                for m in METRICS:
+                    gsd += [Tq(sdv["per"][g][m][k]) == Tq(sdv["ref"][g][m][k]) for k in ("avg", "std", "min", "max")]
+            for m in METRICS:
+                gsd += [Tq(sdv["across"][m][k]) == Tq(ac[m][k]) for k in ("avg", "std", "min", "max")]
+        ctx.oblige(f"{nm}/get_summary_dict = get_summary of every group and metric (+ the across-groups summary)#p{pi}", p.pc, z3.And(*gsd),
+                   func=PS + "Panoptica_Statistic.get_summary_dict", replay="c20.e2e")
         # frame: queries are read-only -- every stored column is the same list with the same cells in the same order afterwards
         vd, snap = p.state["vd"], p.state["snap"]
         cur_vd = p.state["st"].attrs.get("_Panoptica_Statistic__value_dict")
